@@ -15,6 +15,7 @@ import (
 	"github.com/multiformats/go-multihash"
 
 	"verifharness/gen"
+	"verifharness/oracle"
 	"verifharness/store"
 )
 
@@ -27,6 +28,7 @@ type tnode struct {
 	Fanout   int
 	Width    int
 	Chunk    int
+	Writer   string // "" = this library's builder; else a reference importer mode / "ref" for a boxo HAMT
 	Cid      cid.Cid
 	Size     uint64
 	Path     []string
@@ -92,6 +94,9 @@ func genTree(r *rand.Rand, depth int, root bool) *tnode {
 			n.Kind = "hamt"
 			n.Fanout = []int{8, 8, 16, 32}[r.Intn(4)]
 			cnt = 8 + r.Intn(30)
+			if r.Intn(3) == 0 {
+				n.Writer = "ref"
+			}
 		}
 		if r.Intn(12) == 0 {
 			cnt = 0
@@ -104,6 +109,9 @@ func genTree(r *rand.Rand, depth int, root bool) *tnode {
 		return n
 	}
 	n := &tnode{Kind: "file", Width: 2 + r.Intn(2), Chunk: 3 + r.Intn(2)}
+	if r.Intn(3) == 0 {
+		n.Writer = refModeNames[r.Intn(len(refModeNames))]
+	}
 	switch r.Intn(5) {
 	case 0:
 		n.Content = nil
@@ -120,6 +128,14 @@ func genTree(r *rand.Rand, depth int, root bool) *tnode {
 func buildTree(st *store.Store, n *tnode, path []string) error {
 	n.Path = append([]string(nil), path...)
 	ls := st.LinkSystem(false)
+	if n.Kind == "file" && n.Writer != "" {
+		c, sz, err := oracle.RefImport(st, bytes.NewReader(n.Content), fmt.Sprintf("size-%d", n.Chunk), n.Width, refModes[n.Writer])
+		if err != nil {
+			return err
+		}
+		n.Cid, n.Size = c, sz
+		return nil
+	}
 	if n.Kind == "file" {
 		var l ipld.Link
 		var sz uint64
@@ -143,6 +159,23 @@ func buildTree(st *store.Store, n *tnode, path []string) error {
 			return err
 		}
 		entries = append(entries, e)
+	}
+	if n.Kind == "hamt" && n.Writer == "ref" && len(n.Children) > 0 {
+		rs, err := oracle.NewRefShard(st, n.Fanout)
+		if err != nil {
+			return err
+		}
+		for _, c := range n.Children {
+			if err := rs.Set(c.Name, c.Cid, c.Size); err != nil {
+				return err
+			}
+		}
+		c, sz, err := rs.Node()
+		if err != nil {
+			return err
+		}
+		n.Cid, n.Size = c, sz
+		return nil
 	}
 	var l ipld.Link
 	var sz uint64
@@ -178,4 +211,19 @@ func sortedKeys(m map[string]cid.Cid) []string {
 	}
 	sort.Strings(out)
 	return out
+}
+
+var refModes = map[string]oracle.ImportMode{}
+var refModeNames []string
+
+func init() {
+	for _, lay := range []string{"balanced", "trickle"} {
+		for _, raw := range []bool{true, false} {
+			for _, v1 := range []bool{true, false} {
+				m := oracle.ImportMode{Layout: lay, RawLeaves: raw, CidV1: v1}
+				refModes[m.String()] = m
+				refModeNames = append(refModeNames, m.String())
+			}
+		}
+	}
 }
